@@ -5,6 +5,7 @@ import (
 	"encoding/base64"
 	"fmt"
 	"net/url"
+	"strings"
 
 	"github.com/zitadel/saml/pkg/provider/serviceprovider"
 	"github.com/zitadel/saml/pkg/provider/signature"
@@ -23,11 +24,20 @@ func signatureRedirectVerificationNecessary(
 		spMeta := spMetadataF()
 		idpMeta := idpMetadataF()
 
-		return ((spMeta == nil || spMeta.SPSSODescriptor == nil || spMeta.SPSSODescriptor.AuthnRequestsSigned == "true") ||
-			(idpMeta == nil || idpMeta.WantAuthnRequestsSigned == "true") ||
+		return ((spMeta == nil || spMeta.SPSSODescriptor == nil || isXMLBooleanTrue(spMeta.SPSSODescriptor.AuthnRequestsSigned)) ||
+			(idpMeta == nil || isXMLBooleanTrue(idpMeta.WantAuthnRequestsSigned)) ||
 			signatureF() != "") &&
 			protocolBinding() == RedirectBinding
 	}
+}
+
+// isXMLBooleanTrue reports whether value is one of the lexical forms of xs:boolean true ("true" or "1")
+func isXMLBooleanTrue(value string) bool {
+	switch strings.TrimSpace(value) {
+	case "true", "1":
+		return true
+	}
+	return false
 }
 
 func verifyRedirectSignature(
